@@ -6,7 +6,7 @@ sys.path.insert(0, os.path.dirname(os.path.abspath(__file__)))
 import build as B
 
 VERIF = B.VERIF
-OUT = os.path.join(VERIF, "build", "out")
+OUT = os.path.join(B.BUILD, "out")
 KF_PATH = os.path.join(VERIF, "known_findings.json")
 STD_WRAPS = ["exit", "_exit", "abort", "time", "gettimeofday"]
 VX = ["vx/vx.c", "h/hx.c"]
@@ -18,6 +18,7 @@ def env():
     e["UBSAN_OPTIONS"] = "print_stacktrace=1"
     e["TSAN_OPTIONS"] = "halt_on_error=0"
     e["VERIF_DIR"] = VERIF
+    e["VX_REPO_PREFIX"] = B.REPO + "/"
     e["LC_ALL"] = "C.UTF-8"
     return e
 
